@@ -48,10 +48,10 @@ def pwrite (f : List UInt8) (off : Nat) (b : List UInt8) : List UInt8 :=
 
 inductive Op where
   | write (b : List UInt8)
-  | writeAt (b : List UInt8) (off : Nat)
+  | writeAt (b : List UInt8) (off : Int)
   | seek (off : Int) (whence : Nat)
   | read (k : Nat)
-  | truncate (sz : Nat)
+  | truncate (sz : Int)
   | size
   | sync
   | getNode
@@ -70,7 +70,9 @@ inductive Out where
 def specStep (f : File) : Op → File × Out
   | .write b => ({ bytes := pwrite f.bytes f.pos b, pos := f.pos + b.length, anchor := f.pos + b.length },
       .wrote b.length)
-  | .writeAt b off => ({ bytes := pwrite f.bytes off b, pos := off + b.length, anchor := off + b.length },
+  | .writeAt b off =>
+    if off < 0 then (f, .err)      -- io.WriterAt: a negative offset is an error
+    else ({ bytes := pwrite f.bytes off.toNat b, pos := off.toNat + b.length, anchor := off.toNat + b.length },
       .wrote b.length)
   | .seek off whence =>
     let target : Option Int :=
@@ -84,8 +86,11 @@ def specStep (f : File) : Op → File × Out
       else ({ bytes := zext f.bytes t.toNat, pos := t.toNat, anchor := t.toNat }, .pos t)
   | .read k => ({ f with pos := f.pos + ((f.bytes.drop f.pos).take k).length }, .data ((f.bytes.drop f.pos).take k))
   | .truncate sz =>
-    ({ f with bytes := (zext f.bytes sz).take sz,
-              pos := if sz < f.bytes.length ∧ f.pos > sz then max f.anchor sz else f.pos }, .ok)
+    if sz < 0 then (f, .err)       -- a negative size is an error
+    else
+      let sz := sz.toNat
+      ({ f with bytes := (zext f.bytes sz).take sz,
+                pos := if sz < f.bytes.length ∧ f.pos > sz then max f.anchor sz else f.pos }, .ok)
   | .size => (f, .size f.bytes.length)
   | .sync => (f, .ok)
   | .getNode => (f, .content f.bytes)
@@ -93,10 +98,10 @@ def specStep (f : File) : Op → File × Out
 /-- the DagModifier model, same alphabet (error returns of the model become `.err`) -/
 def step (c : Cfg) (s : DM) : Op → DM × Out
   | .write b => let r := write c s b; (r.1, if r.2.2 then .wrote r.2.1 else .err)
-  | .writeAt b off => let r := writeAt c s b off; (r.1, if r.2.2 then .wrote r.2.1 else .err)
+  | .writeAt b off => let r := writeAtI c s b off; (r.1, if r.2.2 then .wrote r.2.1 else .err)
   | .seek off whence => let r := seek c s off whence; (r.1, if r.2.2 then .pos r.2.1 else .err)
   | .read k => let r := read c s k; (r.1, if r.2.2 then .data r.2.1 else .err)
-  | .truncate sz => let r := truncate c s sz; (r.1, if r.2 then .ok else .err)
+  | .truncate sz => let r := truncateI c s sz; (r.1, if r.2 then .ok else .err)
   | .size => (s, .size s.size)
   | .sync => match sync c s with
     | some s' => (s', .ok)
